@@ -40,13 +40,19 @@ def build(case):
         n += 1
         sub = f'{rng.randrange(1000):03d}' if rng.random() < 0.8 else f'{n:03d}'
         rec = list(' ' * 300)
+        if rng.random() < 0.5:
+            # free text in the columns the reader does not look at (a description), with characters whose case mapping
+            # changes length (ß) or that are not ASCII
+            for pos in range(27, 243):
+                if rng.random() < 0.3:
+                    rec[pos] = rng.choice('abcdefghijxyz ßÄöü-,')
         rec[0:10] = '2023010100'
         rec[10:11] = 'A'
         rec[11:19] = 'IP0000T1'
         rec[19:27] = t
         rec[243:246] = sub
         index[sub] = t            # dict semantics: a sub-id assigned twice points to the later table
-        subids[t] = sub
+        subids.setdefault(t, []).append(sub)      # a table indexed twice owns BOTH sub-ids
         recs.append(''.join(rec))
         if rng.random() < 0.2:
             recs.append('HEADER ' + ''.join(rng.choice(FILL) for _ in range(rng.randrange(20, 120))))
@@ -59,7 +65,7 @@ def build(case):
         body = [rng.choice(FILL) for _ in range(width)]
         eff = ''.join(rng.choice('0123456789') for _ in range(10))
         code = rng.choice('AI')
-        sub = subids.get(t, '999')
+        sub = rng.choice(subids[t]) if t in subids else '999'
         if case['expanded']:
             row = eff + code + t + ''.join(body[19:])
             effv = eff
@@ -148,7 +154,7 @@ def explore(run, tier):
     n = 300 if tier == 'quick' else 5000
     for i in range(n):
         tables = rng.sample(configured + ['IP0012T1', 'IP0072T1'], rng.randrange(1, 6))
-        if rng.random() < 0.15:
+        if rng.random() < 0.3:
             tables.append(tables[0])          # the same table indexed twice (second sub-id wins for that table)
         table = rng.choice(configured)
         base = {'seed': rng.getrandbits(40), 'tables': tables, 'nrows': rng.choice([0, 1, 2, 5, 12, 40]),
